@@ -134,7 +134,8 @@ def check_rows(case):
                         break
     m = R.nrows(Q)
     perm = [i % m for i in case["perm"]][:m]
-    perm = list(dict.fromkeys(perm)) + [i for i in range(m) if i not in perm]       # a permutation of range(m)
+    perm = list(dict.fromkeys(perm))
+    perm = perm + [i for i in range(m) if i not in set(perm)]       # a permutation of range(m)
     sub = sorted(set(i % m for i in case["sub"]))
     # every row also travels alone when the batch is small (a row sitting exactly on a decision border behaves differently only when alone)
     singles = list(range(m)) if (m <= 32 and case.get("all_singles", True)) else sorted(set(i % m for i in case["singles"]))
@@ -174,7 +175,8 @@ def check_rows(case):
                 d = _same(full, again, True)
                 require(d is None, "repeat:differs", "%s called twice on the same batch: %s" % (meth, d), f2)
                 require(len(full) == mm, "rows:length", "%s returned %d rows for %d" % (meth, len(full), mm), f2)
-                for kind, idx in (("permutation", [i for i in perm if i < mm]), ("sub-batch", [i for i in sub if i < mm])) + tuple(("single", [i]) for i in singles if i < mm):
+                long_batch = (("reversed", list(range(mm - 1, -1, -1))), ("tail", list(range(mm - 5, mm))), ("single", [mm - 1])) if mm > 64 else ()
+                for kind, idx in (("permutation", [i for i in perm if i < mm]), ("sub-batch", [i for i in sub if i < mm])) + tuple(("single", [i]) for i in singles if i < mm) + long_batch:
                     if not idx:
                         continue
                     part = entry.call(est, meth, R.subset(Qm, idx))
